@@ -1,11 +1,13 @@
 (* Property C13 — grouping returns the connected components of the similarity graph. *)
 From Coq Require Import List Arith Permutation Relations.
-From SE Require Import Misc.Components Misc.ComponentsProofs.
+From Coq Require Import ZArith QArith.
+From SE Require Import Misc.Components Misc.ComponentsProofs Base.Res Gen.Prelude Gen.Source Gen.SrcGroup.
+Local Open Scope nat_scope.
 Import ListNotations.
 
 (* every event in exactly one sequence *)
 Theorem C13_partition : forall n rel, Permutation (concat (group_sound_events n rel)) (seq 0 n).
-Proof. exact partition. Qed.
+Proof. exact ComponentsProofs.partition. Qed.
 Print Assumptions C13_partition.
 
 Theorem C13_groups_nonempty : forall n rel g, In g (group_sound_events n rel) -> g <> [].
@@ -43,3 +45,69 @@ Example C13_ex :
   /\ pairs 3 = [(0, 1); (0, 2); (1, 2)].
 Proof. vm_compute. split; reflexivity. Qed.
 Print Assumptions C13_ex.
+
+(* the property's own clause on the comparison function: only pairs of distinct input events (boolean form used by
+   the correspondence on the calls the real function makes; the model's calls satisfy it) *)
+Theorem C13_calls_distinct : forall n, calls_okb n (pairs n) = true.
+Proof. exact pairs_calls_ok. Qed.
+Print Assumptions C13_calls_distinct.
+
+Theorem C13_calls_okb_sound : forall n calls,
+  calls_okb n calls = true <-> forall i j, In (i, j) calls -> i <> j /\ i < n /\ j < n.
+Proof. exact calls_ok_spec. Qed.
+Print Assumptions C13_calls_okb_sound.
+
+(* ---- on the definition read from the source (Gen/Source.v, regenerated on every run) ---- *)
+(* the code as written builds, for every list of events and every comparison function, the symmetric
+   adjacency of the model's edge list: a 1 at (i, j) and at (j, i) for every edge (i, j) of edges_of, n x n *)
+Theorem C13_src_similarity_matrix : forall cmp evs,
+  Source.compute_similarity_matrix cmp evs = Ok (adjacency cmp evs).
+Proof. exact src_similarity_matrix. Qed.
+Print Assumptions C13_src_similarity_matrix.
+
+Theorem C13_src_entries : forall cmp evs a b,
+  let m := adjacency cmp evs in
+  In (a, b) (combine (coo_i m) (coo_j m)) <->
+  (a < b /\ b < length evs /\ rel_on cmp evs a b = true) \/ (b < a /\ a < length evs /\ rel_on cmp evs b a = true).
+Proof. exact src_entries. Qed.
+Print Assumptions C13_src_entries.
+
+Theorem C13_src_entries_symmetric : forall cmp evs a b,
+  let m := adjacency cmp evs in
+  In (a, b) (combine (coo_i m) (coo_j m)) -> In (b, a) (combine (coo_i m) (coo_j m)).
+Proof. exact src_entries_symmetric. Qed.
+Print Assumptions C13_src_entries_symmetric.
+
+Theorem C13_src_no_diagonal : forall cmp evs a,
+  let m := adjacency cmp evs in ~ In (a, a) (combine (coo_i m) (coo_j m)).
+Proof. exact src_no_diagonal. Qed.
+Print Assumptions C13_src_no_diagonal.
+
+Theorem C13_src_values_one : forall cmp evs x, In x (coo_data (adjacency cmp evs)) -> x = 1%Q.
+Proof. exact src_values_one. Qed.
+Print Assumptions C13_src_values_one.
+
+Theorem C13_src_shape : forall cmp evs,
+  coo_rows (adjacency cmp evs) = Z.of_nat (length evs) /\ coo_cols (adjacency cmp evs) = Z.of_nat (length evs) /\
+  length (coo_i (adjacency cmp evs)) = length (coo_data (adjacency cmp evs)) /\
+  length (coo_j (adjacency cmp evs)) = length (coo_data (adjacency cmp evs)).
+Proof. exact src_shape. Qed.
+Print Assumptions C13_src_shape.
+
+(* the comparison function is only applied to (events[i], events[j]) with i < j < n, each such pair once *)
+Theorem C13_src_queries : forall evs x y,
+  In (x, y) (py_combinations2 (py_enumerate evs)) <->
+  exists i j, i < j /\ j < length evs /\ x = (i, ev evs i) /\ y = (j, ev evs j).
+Proof. exact src_queries. Qed.
+Print Assumptions C13_src_queries.
+
+Theorem C13_src_queries_once : forall evs,
+  NoDup (map (fun p : (nat * Z) * (nat * Z) => (fst (fst p), fst (snd p))) (py_combinations2 (py_enumerate evs))).
+Proof. exact src_queries_once. Qed.
+Print Assumptions C13_src_queries_once.
+
+Example C13_src_ex :
+  Source.compute_similarity_matrix (fun a b => Z.eqb (Z.abs (a - b)) 1) [10; 20; 11; 21; 12]%Z
+  = Ok (mk_coo [1; 1; 1; 1; 1; 1]%Q [0; 2; 1; 3; 2; 4] [2; 0; 3; 1; 4; 2] 5 5).
+Proof. exact src_similarity_ex. Qed.
+Print Assumptions C13_src_ex.
